@@ -6,4 +6,5 @@ mkdir -p /tmp/ag/$N
 git -C /verif worktree add -q -b ag-$N /tmp/ag/$N/verif HEAD
 git -C /repo worktree add -q --detach /tmp/ag/$N/repo HEAD
 cp /repo/Cargo.lock /tmp/ag/$N/verif/harness/Cargo.lock
+cp /repo/Cargo.lock /tmp/ag/$N/repo/Cargo.lock   # untracked in /repo, needed by setup.sh and check
 echo /tmp/ag/$N
